@@ -201,9 +201,25 @@ PROPS["C14"] = {
     "assumptions": COMMON_ASSUME + ["limits above 2^24 are not run on inputs whose corrupted size field declares a moov above 2^24 bytes (the real allocation of such a buffer is outside the model; allocation behaviour is C10)"],
 }
 
+PROPS["C12"] = {
+    "extract": [],
+    "rule": "cases = (input, reader, schedule): 17 inputs that drive every await point (32/64-bit header reads, ftyp/moov payload reads, skips small and above i64::MAX, position/length queries for until-EOF moov, mdat and free, the end-of-scan length check, truncated / invalid inputs, remux files) x 3 readers (native AsyncSkip seek-based, native strict, SeekSkipAdapter over AsyncRead+AsyncSeek) x schedules: none, EVERY single suspended poll index (one past the end too), EVERY pair over the first 48 (400) indices, every triple over the first 40 (thorough), every poll suspended once / twice, every third, 50 suspensions up front, 40 (400) random densities. The future is polled by a deterministic executor; a suspended poll makes no progress and wakes the task. The result must equal the synchronous call's and the Lean model's async run (same schedule) must reproduce it. non-trivial = schedules in which at least one suspension was actually consumed (tag bites); distinct = distinct (input, reader, schedule)",
+    "trivial_if_any": ["inert"],
+    "shards": {"quick": 8, "thorough": 16},
+    "exhaustive": {"quick": True, "thorough": True},
+    "explanation": "exhaustive = all schedules with at most one suspension over every poll index of every (input, reader), and all with two over the stated prefix",
+    "trusted_base": ADAPTER_TRUSTED + ["MediaSan/Async.lean: the poll functions of common/src/async_skip.rs as restart-from-the-top state machines, validated by reproducing the real async result under every generated schedule (including the defective ones)", "the compiler's lowering of async fn and futures-util's read_exact / fill_buf / BufReader futures (progress kept in the future or the buffer) are trusted; they are exercised, not modelled"],
+    "assumptions": COMMON_ASSUME + ["the underlying reader obeys the contract in the property (Pending = no progress + wake)"],
+}
+
 NOT_APPLICABLE = {}
 
 MANIFEST_TEXT = {
+    "C12": {
+        "text": "Lean theorems: C12_native - for every native AsyncSkip reader, EVERY schedule of Pendings, every BufReader capacity and configuration, the sanitizer over the suspended reader returns the synchronous result (each awaited operation, polled until ready, returns the synchronous operation's value and state: simulation lifted through BufReader and then through every I/O program). SeekSkipAdapter over AsyncSeek: poll_skip (both branches) and poll_stream_position are restartable under every schedule (the cursor advances exactly once); poll_stream_len returns the length under every schedule and preserves the position unless its restoring seek is suspended (C12_seek_stream_len_partial), and C12_seek_partial lifts this to the whole sanitizer: async = sync unless a restoring seek was suspended. C12_seek_stream_len_witness proves the defect (F5). Correspondence: real sanitize_async under exhaustive <= 2-suspension schedules on three readers; the model reproduces every async result, including the defective ones.",
+        "note": "KNOWN FINDING F5: SeekSkipAdapter::poll_stream_len loses the stream position when its third seek is suspended; sanitize_async then differs from the sync call on until-EOF boxes. Recorded in known_findings.json (not repaired: needs state in a public tuple struct or a trait change). Trusted: see evidence.",
+        "technique": "Lean 4 proof (restartability of each poll function by induction over schedules, simulation lifted through BufReader and I/O programs, with an explicit escape for the defective operation) + exhaustive small-schedule differential check under a deterministic executor",
+    },
     "C14": {
         "text": "Lean theorems (relation AgreeUnless e p q over I/O programs: p and q are the same program except where p fails with e; run_agree lifts it to every cursor): C14_limit - for limits L <= L', every cursor and stream, the MP4 run with limit L ends in InvalidInput or returns exactly the run with L' (hence acceptance is monotone in the limit and an accepted result never depends on it); the limit is compared before the payload is read (C14_limit_before_read). C14_unknown - the WebP run with allow_unknown_chunks off ends in UnsupportedChunk or equals the run with it on, through every loop of the container program; so no other error is masked and accepted inputs are unaffected. C14_cumulative_header - the option rewrites exactly the header of an until-EOF mdat to the given 32-bit size (values < 8 are then InvalidInput) and is the identity otherwise. Correspondence: configuration lattices run on the real crates (incl. the rewritten-size-field equivalence for cumulative_mdat_box_size) and compared with the model.",
         "note": "Trusted: Lean kernel and standard axioms; the models of both sanitizers (validated per case); the cumulative-size claim at whole-run level ('equals the input with the size field rewritten') is decided per case on the implementation, the theorem is at header level.",
